@@ -41,6 +41,23 @@ let parse_bops n lines =
        | ["d"; k] -> (bytes_of_token k, None)
        | _ -> failwith "bad batch op") ops, rest)
 
+(* the entries of an mbatch line: at most n of the directly following m/p/d lines (as the harness) *)
+let parse_mops n lines =
+  let rec take k l acc =
+    if k = 0 then (Stdlib.List.rev acc, l) else
+      match l with
+      | ["m"; key; v] :: t -> take (k-1) t ((bytes_of_token key, EMerge (bytes_of_token v)) :: acc)
+      | ["p"; key; v] :: t -> take (k-1) t ((bytes_of_token key, EPut (bytes_of_token v)) :: acc)
+      | ["d"; key] :: t -> take (k-1) t ((bytes_of_token key, EDel) :: acc)
+      | _ -> (Stdlib.List.rev acc, l) in
+  take n lines []
+
+(* Some pairs when every entry is a merge operand *)
+let merge_pairs ops =
+  if Stdlib.List.for_all (fun (_, kd) -> match kd with EMerge _ -> true | _ -> false) ops
+  then Some (Stdlib.List.map (fun (k, kd) -> match kd with EMerge v -> (k, v) | _ -> (k, [])) ops)
+  else None
+
 let run (id : string) (hdr : string list) (lines : string list list) (out : string -> unit) =
   if kv_of hdr "mode" "seq" = "sched" then () else
   let c = { c_memsize = n_of_string (kv_of hdr "memsize" "4096"); c_maxmem = n_of_string (kv_of hdr "maxmem" "1000") } in
@@ -59,6 +76,11 @@ let run (id : string) (hdr : string list) (lines : string list list) (out : stri
     | ["del"; k] :: r -> wr (del !s (bytes_of_token k)); go r
     | ["get"; k] :: r -> pr ("G " ^ render_opt (get !s (bytes_of_token k))); go r
     | ["batch"; n] :: r -> let (ops, rest) = parse_bops (int_of_string n) r in wr (apply_batch !s ops); go rest
+    | ["mbatch"; n] :: r -> let (ops, rest) = parse_mops (int_of_string n) r in
+      (match merge_pairs ops with
+       | Some es -> wr (merge_batch !s es)
+       | None -> wr (mixed_batch !s ops));
+      go rest
     | ["commit"; n] :: r -> let (ops, rest) = parse_bops (int_of_string n) r in wr (tx_commit !s ops); go rest
     | ["rollback"; n] :: r -> let (_, rest) = parse_bops (int_of_string n) r in pr "T rolledback"; go rest
     | ["flush"] :: r -> s := flush !s; go r
